@@ -1,4 +1,5 @@
 import Panacea.Lemmas.AolDense
+import Panacea.Lemmas.AolGenesis
 /-!
 # C01 — AOL records are append-only: immutable, never deleted, densely numbered
 
@@ -10,7 +11,8 @@ do not appear as separate operations here.
 
 Hypotheses that remain, all explicit:
 * `RecInv s₀` — the start state's records and `total_records` counters agree (true of the empty
-  genesis, `recInv_empty`, and preserved by every message, `recInv_reachable`);
+  genesis, `recInv_empty`, of every state that passed the repaired genesis validation, `recInv_validated_genesis`
+  (F26), and preserved by every message, `recInv_reachable`);
 * `B + history.length < 2^64` where `B` bounds every `total_records` of the start state — `uint64`
   counters do not overflow during the history.
 -/
@@ -37,6 +39,11 @@ theorem recordKey_injective (o t o' t' : Bytes) (n n' : Nat) (k : Bytes) (hn : n
 
 /-- The state invariant holds for the empty genesis … -/
 theorem recInv_genesis : RecInv {} := recInv_empty
+
+/-- … for every state imported from a genesis that passed the (repaired, F26) validation: records below their topic's
+counter, as many record entries per topic as the counter says — by the pigeonhole principle exactly the offsets
+`0 … total_records-1` … -/
+theorem recInv_validated_genesis (s : State) (h : GenesisChecked s) : RecInv s := recInv_of_genesisChecked h
 
 /-- … and for every state reachable from a state that satisfies it, by any history. -/
 theorem recInv_reachable (c : AddrCodec) (s : State) (B : Nat) (ops : List (Int × Msg))
